@@ -708,7 +708,7 @@ func genBloom(g *core.Gen) {
 		}
 	}
 	// random op sequences
-	for i := 0; i < g.N(700, 20000); i++ {
+	for i := 0; i < g.N(500, 20000); i++ {
 		sz := bloomRandSize(r)
 		if r.Chance(1, 25) {
 			sz = 0
@@ -763,7 +763,7 @@ func genBloom(g *core.Gen) {
 		rec(g, "bloom-life", true, fmt.Sprintf("C20 bloom %s %s", first, opsTok(ops)))
 	}
 	// transactions against the three update modes (+ invalid flag values)
-	for i := 0; i < g.N(700, 20000); i++ {
+	for i := 0; i < g.N(500, 20000); i++ {
 		sz := bloomRandSize(r)
 		if r.Chance(1, 3) {
 			sz = 20 + r.Intn(200) // fewer false positives
